@@ -1,5 +1,6 @@
 import Tickit.Proof.XTermDrv
 import Tickit.Proof.XTermOut
+import Tickit.Model.XTermPenRgb
 import Tickit.Gen.XTermFacts
 import Tickit.Gen.TermBuf
 /-
@@ -1374,5 +1375,190 @@ open Tickit.Gen.TermBuf in
 theorem pauseBytes_from_source :
     pauseBytes = teardown_pen_reset ∧ pause_is_teardown = true ∧ stop_is_teardown = true ∧ term_pause_flushes = true := by
   decide
+
+/-! ### Backgrounds with an RGB8 secondary value (`Model/XTermPenRgb.lean`) -/
+
+theorem bgParamsX_none (cap : Bool) (v : Int) : bgParamsX cap v none = bgParams v := by
+  unfold bgParamsX bgParams
+  by_cases h : v < 0 <;> simp [h]
+
+theorem setpenParamsX_eq (o cb cr : Bool) (v : Int) (rvv : Bool) :
+    setpenParamsX o cb cr (bgParams v) rvv = setpenParams o cb cr v rvv := rfl
+
+/-- Without RGB8 values the extended pen model is the proved one. -/
+theorem setpenX_plain (caps : Caps) (cache : PenCache) (pen : PenReq) :
+    setpenX caps ⟨cache, none⟩ ⟨pen, none⟩ = (⟨(setpen caps cache pen).1, none⟩, (setpen caps cache pen).2) := by
+  cases hb : pen.bg <;>
+    simp [setpenX, setpen, PenReqX.rgb, hb, bgParamsX_none, setpenParamsX_eq]
+
+theorem chpenX_plain (caps : Caps) (cache : PenCache) (pen : PenReq) :
+    chpenX caps ⟨cache, none⟩ ⟨pen, none⟩ = (⟨(chpen caps cache pen).1, none⟩, (chpen caps cache pen).2) := by
+  cases hb : pen.bg <;>
+    simp [chpenX, chpen, PenReqX.rgb, hb, bgParamsX_none, setpenParamsX_eq, changedBy]
+
+/-- The five SGR parameters of an RGB8 background, interpreted (colon and semicolon form). -/
+theorem rgb_params_fold (colon : Bool) (c : RGB8) (bg : Int) (rv : Bool) :
+    pfinish (([⟨48, true⟩, ⟨2, true⟩, ⟨c.r, true⟩, ⟨c.g, true⟩, ⟨c.b, false⟩] : List SgrParam).foldl (pstep colon)
+      (⟨bg, rv, .none⟩, [])) = ⟨rgbColour c.r c.g c.b, rv, .none⟩ := by
+  cases colon <;> simp [pstep, pfinish, sgrStep, sgrExtBgColon]
+
+/-- The clause "… using the current background" for RGB8 backgrounds: on a terminal that shows RGB8 colours, a `chpen`
+    asking for index `v` + RGB8 value `c` - whatever the cache holds, unless it holds exactly that (in particular when
+    it holds the same index `v` without an RGB8 value, or with another one: the index+RGB8, plain index, index+RGB8
+    sequence) - sends bytes after which the terminal's background IS that RGB8 colour; nothing else on the screen
+    changes, and the cached pen asks for the same colour.  Every later `erasech` / `clear` / `print` blanks with
+    `vt.bg` (`erasech_effect`, `clear_effect`, `print_effect`). -/
+theorem chpen_rgb_effect (caps : Caps) (hcap : caps.rgb8 = true) (cache : PenCacheX) (v : Int) (c : RGB8)
+    (h0 : 0 ≤ v) (hdiff : ¬ (cache.base.bg = some v ∧ cache.bgRgb = some c)) (vt : VTState) (hg : vt.ps = .ground) :
+    run (chpenX caps cache ⟨⟨some v, none⟩, some c⟩).2 vt = { vt with bg := rgbColour c.r c.g c.b } ∧
+    (chpenX caps cache ⟨⟨some v, none⟩, some c⟩).1.wantBg caps = some (rgbColour c.r c.g c.b) ∧
+    (chpenX caps cache ⟨⟨some v, none⟩, some c⟩).1.base.rv = cache.base.rv := by
+  have hv : ¬ v < 0 := by omega
+  have hnd : (PenCache.mk cache.base.others (some v) cache.base.rv).nondefault = true := by
+    have : v ≠ -1 := by omega
+    simp [PenCache.nondefault, this]
+  have hps : setpenParamsX false true false (bgParamsX caps.rgb8 v (some c)) false =
+      [⟨48, true⟩, ⟨2, true⟩, ⟨c.r, true⟩, ⟨c.g, true⟩, ⟨c.b, false⟩] := by
+    simp [setpenParamsX, bgParamsX, hcap, hv]
+  refine ⟨?_, ?_, ?_⟩
+  · simp only [chpenX, PenReqX.rgb, Option.isSome_some, if_true, hdiff, not_false_eq_true, decide_true, changedBy,
+      Option.getD_some, Option.getD_none, hps, Bool.false_eq_true, if_false]
+    unfold chpenBytes
+    rw [if_neg (by simp), hnd]
+    simp only [Bool.not_true, Bool.false_eq_true, if_false]
+    rw [run_renderSgr vt hg caps.colon _ (by simp) (by
+      intro p hp
+      simp only [List.mem_cons, List.mem_nil_iff, or_false] at hp
+      rcases hp with h | h | h | h | h <;> subst h <;> simp), rgb_params_fold]
+  · simp [chpenX, PenReqX.rgb, hdiff, PenCacheX.wantBg, hv, hcap]
+  · simp [chpenX, PenReqX.rgb, hdiff, changedBy]
+
+/-- The middle step of the sequence: a `chpen` asking for the plain index `v` on a cache that holds `v` WITH an RGB8
+    value is not a no-op - the index form is sent, the terminal's background becomes palette colour `v`, and the
+    cache forgets the RGB8 value (`tickit_pen_copy_attr` sets the index, which drops the destination's RGB8). -/
+theorem chpen_plain_after_rgb (caps : Caps) (cache : PenCacheX) (v : Int) (c : RGB8) (h0 : 0 ≤ v) (h1 : v ≤ 255)
+    (hb : cache.base.bg = some v) (hc : cache.bgRgb = some c) (vt : VTState) (hg : vt.ps = .ground) :
+    run (chpenX caps cache ⟨⟨some v, none⟩, none⟩).2 vt = { vt with bg := v } ∧
+    (chpenX caps cache ⟨⟨some v, none⟩, none⟩).1 = ⟨cache.base, none⟩ := by
+  have hnd : (PenCache.mk cache.base.others (some v) cache.base.rv).nondefault = true := by
+    have : v ≠ -1 := by omega
+    simp [PenCache.nondefault, this]
+  refine ⟨?_, ?_⟩
+  · simp only [chpenX, PenReqX.rgb, Option.isSome_some, if_true, hb, hc, changedBy, Option.getD_some, Option.getD_none,
+      bgParamsX_none, setpenParamsX_eq]
+    simp only [reduceCtorEq, and_false, not_false_eq_true, decide_true, if_true]
+    rw [run_chpenBytes vt hg caps.colon false true false v false (by omega) h1]
+    simp [hnd]
+  · cases hcb : cache.base with
+    | mk o b r =>
+      rw [hcb] at hb; simp only at hb
+      simp [chpenX, PenReqX.rgb, hcb, hb, hc, changedBy]
+
+/-- Non-vacuity, the reviewers' sequence: bg=3 + RGB8 (10,20,30), then plain bg=3, then bg=3 + RGB8 again on a
+    terminal with the RGB8 capability - the third request sends `CSI 48:2:10:20:30 m`. -/
+example :
+    let caps : Caps := ⟨false, true, true⟩
+    let c1 := (chpenX caps PenCacheX.empty ⟨⟨some 3, none⟩, some ⟨10, 20, 30⟩⟩).1
+    let c2 := (chpenX caps c1 ⟨⟨some 3, none⟩, none⟩).1
+    (chpenX caps c2 ⟨⟨some 3, none⟩, some ⟨10, 20, 30⟩⟩).2 = csi "48:2:10:20:30m".toUTF8.toList ∧
+    (chpenX caps c1 ⟨⟨some 3, none⟩, none⟩).2 = csi "43m".toUTF8.toList := by
+  decide +kernel
+
+def rgbParams (c : RGB8) : List SgrParam := [⟨48, true⟩, ⟨2, true⟩, ⟨c.r, true⟩, ⟨c.g, true⟩, ⟨c.b, false⟩]
+
+theorem piece_rgb (colon : Bool) (c : RGB8) (bg : Int) (rv : Bool) :
+    (rgbParams c).foldl (pstep colon) (⟨bg, rv, .none⟩, []) = (⟨rgbColour c.r c.g c.b, rv, .none⟩, []) := by
+  cases colon <;> simp [rgbParams, pstep, sgrStep, sgrExtBgColon]
+
+theorem setpenParamsX_nonneg (o cb cr : Bool) (ps : List SgrParam) (rvv : Bool) (hps : ∀ p ∈ ps, 0 ≤ p.val) :
+    ∀ p ∈ setpenParamsX o cb cr ps rvv, 0 ≤ p.val := by
+  intro p hp
+  unfold setpenParamsX at hp
+  simp only [List.mem_append] at hp
+  rcases hp with (((hp | hp) | hp) | hp) | hp
+  · cases o <;> simp at hp; subst hp; decide
+  · cases cb <;> simp at hp; exact hps p hp
+  · cases o <;> simp at hp; rcases hp with hp | hp | hp <;> subst hp <;> decide
+  · cases cr <;> simp at hp; subst hp; cases rvv <;> decide
+  · cases o <;> simp at hp; rcases hp with hp | hp | hp | hp <;> subst hp <;> decide
+
+theorem setpenParamsX_fold (colon o cb cr : Bool) (ps : List SgrParam) (nb : Int) (rvv : Bool)
+    (hpiece : ∀ bg rv, ps.foldl (pstep colon) (⟨bg, rv, .none⟩, []) = (⟨nb, rv, .none⟩, [])) (bg : Int) (rv : Bool) :
+    (setpenParamsX o cb cr ps rvv).foldl (pstep colon) (⟨bg, rv, .none⟩, []) =
+      (⟨if cb = true then nb else bg, if cr = true then rvv else rv, .none⟩, []) := by
+  unfold setpenParamsX
+  simp only [List.foldl_append, fold_ite, piece_fg, piece_bui, piece_tail, ite_self]
+  cases cb
+  · cases cr
+    · simp only [Bool.false_eq_true, if_false, piece_bui, piece_tail, ite_self]
+    · simp only [Bool.false_eq_true, if_false, if_true, piece_bui, piece_rv, piece_tail, ite_self]
+  · cases cr
+    · simp only [Bool.false_eq_true, if_false, if_true, hpiece, piece_bui, piece_tail, ite_self]
+    · simp only [if_true, hpiece, piece_bui, piece_rv, piece_tail, ite_self]
+
+theorem rgbParams_nonneg (c : RGB8) : ∀ p ∈ rgbParams c, 0 ≤ p.val := by
+  intro p hp
+  simp only [rgbParams, List.mem_cons, List.mem_nil_iff, or_false] at hp
+  rcases hp with h | h | h | h | h <;> subst h <;> simp
+
+/-- `setpen` with an RGB8 background on a terminal that shows RGB8 colours: unless the cache holds exactly that index
+    and RGB8 value, the bytes sent make the terminal's background that RGB8 colour (and set reverse video as asked,
+    if it differs from the cached value); nothing else on the screen changes. -/
+theorem setpen_rgb_effect (caps : Caps) (hcap : caps.rgb8 = true) (cache : PenCacheX) (v : Int) (c : RGB8)
+    (rvq : Option Bool) (h0 : 0 ≤ v) (hdiff : ¬ (cache.base.bg = some v ∧ cache.bgRgb = some c))
+    (vt : VTState) (hg : vt.ps = .ground) :
+    run (setpenX caps cache ⟨⟨some v, rvq⟩, some c⟩).2 vt =
+      { vt with bg := rgbColour c.r c.g c.b,
+                rv := if cache.base.rv ≠ some (rvq.getD false) then rvq.getD false else vt.rv } ∧
+    (setpenX caps cache ⟨⟨some v, rvq⟩, some c⟩).1.wantBg caps = some (rgbColour c.r c.g c.b) := by
+  have hv : ¬ v < 0 := by omega
+  have hbp : bgParamsX caps.rgb8 v (some c) = rgbParams c := by simp [bgParamsX, hcap, hv, rgbParams]
+  have hnd : (PenCache.mk true (some v) (some (rvq.getD false))).nondefault = true := by
+    have : v ≠ -1 := by omega
+    simp [PenCache.nondefault, this]
+  refine ⟨?_, ?_⟩
+  · simp only [setpenX, PenReqX.rgb, Option.isSome_some, if_true, hdiff, not_false_eq_true, decide_true,
+      Option.getD_some, hbp]
+    unfold chpenBytes
+    have hne : setpenParamsX (!cache.base.others) true (decide (cache.base.rv ≠ some (rvq.getD false))) (rgbParams c)
+        (rvq.getD false) ≠ [] := by
+      simp [setpenParamsX, rgbParams]
+    rw [if_neg hne, hnd]
+    simp only [Bool.not_true, Bool.false_eq_true, if_false]
+    rw [run_renderSgr vt hg caps.colon _ hne (setpenParamsX_nonneg _ _ _ _ _ (rgbParams_nonneg c)),
+      setpenParamsX_fold caps.colon _ _ _ _ _ _ (piece_rgb caps.colon c)]
+    simp [pfinish]
+  · simp [setpenX, PenReqX.rgb, PenCacheX.wantBg, hv, hcap]
+
+/-- After a `chpen` asking for index `v` + RGB8 `c` the cache holds exactly that. -/
+theorem chpenX_rgb_cache (caps : Caps) (cache : PenCacheX) (v : Int) (c : RGB8) :
+    (chpenX caps cache ⟨⟨some v, none⟩, some c⟩).1.base.bg = some v ∧
+    (chpenX caps cache ⟨⟨some v, none⟩, some c⟩).1.bgRgb = some c := by
+  by_cases h : cache.base.bg = some v ∧ cache.bgRgb = some c
+  · simp [chpenX, PenReqX.rgb, h]
+  · simp [chpenX, PenReqX.rgb, h]
+
+/-- The whole sequence the property's clause is about, for every palette index, RGB8 value, starting cache and
+    screen: index+RGB8, plain index, index+RGB8 again (three `chpen`s on a terminal with the RGB8 capability).  The
+    second request leaves the terminal's background at palette colour `v`, the third brings the RGB8 colour back -
+    it is never taken for a no-op - so the blanks of a following `erasech` / `clear` / `print` (which use `vt.bg`)
+    have the background asked for. -/
+theorem rgb_plain_rgb_sequence (caps : Caps) (hcap : caps.rgb8 = true) (cache : PenCacheX) (v : Int) (c : RGB8)
+    (h0 : 0 ≤ v) (h1 : v ≤ 255) (vt : VTState) (hg : vt.ps = .ground) :
+    let rgb : PenReqX := ⟨⟨some v, none⟩, some c⟩
+    let plain : PenReqX := ⟨⟨some v, none⟩, none⟩
+    let c1 := (chpenX caps cache rgb).1
+    let c2 := (chpenX caps c1 plain).1
+    run (chpenX caps c1 plain).2 vt = { vt with bg := v } ∧
+    run (chpenX caps c2 rgb).2 { vt with bg := v } = { vt with bg := rgbColour c.r c.g c.b } ∧
+    (chpenX caps c2 rgb).1.wantBg caps = some (rgbColour c.r c.g c.b) := by
+  intro rgb plain c1 c2
+  obtain ⟨hb1, hr1⟩ := chpenX_rgb_cache caps cache v c
+  obtain ⟨hrun2, hc2⟩ := chpen_plain_after_rgb caps c1 v c h0 h1 hb1 hr1 vt hg
+  have hdiff : ¬ (c2.base.bg = some v ∧ c2.bgRgb = some c) := by
+    show ¬ ((chpenX caps c1 plain).1.base.bg = some v ∧ (chpenX caps c1 plain).1.bgRgb = some c)
+    rw [hc2]; simp
+  obtain ⟨hrun3, hw3, _⟩ := chpen_rgb_effect caps hcap c2 v c h0 hdiff { vt with bg := v } hg
+  exact ⟨hrun2, hrun3, hw3⟩
 
 end Tickit.Props.C09
